@@ -454,3 +454,82 @@ def peat_tables(prop, label, p, chunks=8, timeout=900):
             errors.append((tab, out[-2000:]))
     return dict(dir=d, eps=eps, eta=eta, mids=mids, tmid=tmid, errors=errors, seconds=time.time() - t0,
                 extra=extra, head=head)
+
+
+# ------------------------------------------------------------------ wave 5 additions (nothing above draws from these)
+
+#: round numbers software chunks / caches / switches algorithm at
+BLOCK_BOUNDARIES = (1000, 1024, 2048, 3072, 4096, 8192, 10000)
+
+
+def long_size(rng, band):
+    """A size at or past one of the round numbers: band 0 -> exactly 1024 or 1025..1100 (the first full block and
+    a little more), band 1 -> 2049..3071, band 2 -> 4097..5000, band 3 -> 1001..1023; never a multiple of 1000, and
+    a multiple of 1024 only where band 0 says 'exactly 1024'."""
+    if band == 0 and rng.random() < 0.34:
+        return 1024
+    lo, hi = ((1025, 1100), (2049, 3071), (4097, 5000), (1001, 1023))[band]
+    while True:
+        n = rng.randrange(lo, hi + 1)
+        if n % 1000 and n % 1024:
+            return n
+
+
+LONG_ORDERS = ('shuffled', 'ascending', 'descending', 'record')
+
+
+def long_array_from_pool(rng, pool, n, order, high):
+    """n levels drawn (with repetition) from `pool` for ONE array call - the scalar value is then needed only once
+    per pool level.  order: 'shuffled'; 'ascending' / 'descending' (sorted, ties kept); 'record' (a slow wave through
+    the sorted pool plus jitter, like a water-level record).  Unless sorted, the levels of `high` (levels whose value
+    is far from the minimum) are planted just before, at and just after every index of BLOCK_BOUNDARIES below n."""
+    pool = sorted(float(z) for z in pool)
+    m = len(pool)
+    if order == 'record':
+        period = rng.choice([337.0, 811.0, 1499.0])
+        idx = [int(round((m - 1) * (0.5 + 0.5 * math.sin(2 * math.pi * i / period)) + rng.uniform(-2, 2))) for i in range(n)]
+        xs = [pool[min(max(i, 0), m - 1)] for i in idx]
+    else:
+        xs = [pool[rng.randrange(m)] for _ in range(n)]
+        if order in ('ascending', 'descending'):
+            xs.sort(reverse=(order == 'descending'))
+    if order in ('shuffled', 'record'):
+        for b in BLOCK_BOUNDARIES:
+            for k, i in enumerate((b - 1, b, b + 1, b - 2)):
+                if 0 <= i < n:
+                    xs[i] = float(high[k % len(high)])
+    return xs
+
+
+NEAR_KINDS = ('decimal', 'ulp', 'ulp', 'ratio-15', 'ratio-14', 'ratio-13', 'ratio-12', 'ratio-11', 'ratio-10',
+              'ratio-9', 'ratio-8', 'ratio-7', 'ratio-6')
+
+
+def rounding_neighbour(rng, kind, lo=1e-1, hi=1e3):
+    """(K, K') : two positive numbers that differ by rounding only.  'decimal': a decimal and the same number as
+    floating-point arithmetic produces it (0.3 and 0.1 * 3, 0.7 and sum([0.1] * 7), 1.21 and 1.1 * 1.1 ...), scaled
+    by a power of ten; 'ulp': K and the float 1-3 ulps beside it; 'ratio-e': K and K (1 +- 10^-e).  Either may come
+    first (the caller places them at adjacent knots)."""
+    if kind == 'decimal':
+        while True:
+            m, d = rng.randrange(2, 60), rng.choice([0.1, 0.01, 0.001, 1.1, 0.7])
+            how = rng.choice(['product', 'sum', 'sum'])
+            a = m * d if how == 'product' else sum([d] * m)
+            b = float('%.12g' % a)
+            if a != b and abs(a - b) <= 4 * math.ulp(b):
+                s = 10.0 ** rng.choice([0, 0, 1, 2, -1])
+                pair = (a * s, b * s) if (a * s != b * s) else (a, b)
+                break
+    else:
+        K = round_sig(loguniform(rng, lo, hi), rng.choice([2, 3, 6]))
+        if kind == 'ulp':
+            K2, towards = K, rng.choice([math.inf, 0.0])
+            for _ in range(rng.choice([1, 1, 2, 3])):
+                K2 = math.nextafter(K2, towards)
+        else:
+            e = int(kind.split('-')[1])
+            K2 = K * (1.0 + rng.choice([1.0, -1.0]) * 10.0 ** -e)
+            if K2 == K:
+                K2 = math.nextafter(K, math.inf)
+        pair = (K, K2)
+    return pair if rng.random() < 0.5 else (pair[1], pair[0])
